@@ -41,7 +41,7 @@ def plan(tier, prop):
                 "non-trivial = at least one router operation completed; "
                 "distinct = distinct abstract event traces",
         "expected_probes": ["alloc_failed_natural", "alloc_failed_injected",
-                            "multisource_error", "shared_keymask_merge", "numpy_keys", "extreme_key_mask",
+                            "multisource_error", "shared_keymask_merge", "numpy_keys", "extreme_key_mask", "routing_tree_subclass",
                             "empty_table", "big_table", "all_route_bits",
                             "clear", "readback", "op_timeout",
                             "leaf_without_route", "fragmented_start"],
@@ -72,6 +72,19 @@ class RtrEngine(object):
         (in_dir, xy, out_dirs))."""
         t = self.t
         RT = self.RoutingTree
+        sub_kind = t.weighted([6, 1, 1])
+        if sub_kind:
+            # the caller's own subclass of the public RoutingTree class, for
+            # every node or for every other one
+            class AnnotatedTree(self.RoutingTree):
+                note = "caller data"
+            self.w.probe("routing_tree_subclass")
+            flip = [0]
+
+            def RT(xy, _base=self.RoutingTree):
+                flip[0] += 1
+                return AnnotatedTree(xy) if sub_kind == 1 or flip[0] % 2 \
+                    else _base(xy)
         Routes = self.Routes
         root_xy = (t.draw(W), t.draw(H))
         visited = {root_xy}
